@@ -9,6 +9,7 @@ J=4; [ "$1" = -j ] && { J=$2; shift 2; }
 names=${@:-$(ls /verif/seeded)}
 one() {
   name=$1; S=/verif/seeded/$name; ID=${name%%-*}
+  [ -f $S/checks ] && ID=$(head -1 $S/checks)   # a change seeded against one property but caught by another property's check
   D=$(mktemp -d /tmp/rs.XXXXXX)
   git -C /repo worktree add -q --detach "$D/wt" HEAD || { echo "$name BROKEN worktree"; rm -rf $D; return; }
   if ! git -C "$D/wt" apply $S/patch.diff 2>/dev/null && ! { git -C "$D/wt" apply -3 $S/patch.diff >/dev/null 2>&1 && [ -z "$(git -C "$D/wt" diff --name-only --diff-filter=U)" ]; }; then echo "$name NOAPPLY"; git -C /repo worktree remove --force "$D/wt"; rm -rf $D; return; fi
